@@ -150,8 +150,22 @@ func c09Judge(r *SeqRun) []Viol {
 	var victims []int64 // key hashes in eviction order
 	rejected, admitted := false, false
 	var admittedCost int64
+	// what the deciding step did, in order: "fill" (one range statement over the accounting map,
+	// with the keys it handed to the loop body) and "evict" (a non-zero OnEvict)
+	type c09Act struct {
+		fill   bool
+		keys   []int64
+		victim int64
+	}
+	var acts []c09Act
 	for _, e := range evs {
 		switch e.Kind {
+		case evMapYield:
+			if e.A == -1 && e.C == 0 {
+				acts = append(acts, c09Act{fill: true})
+			} else if n := len(acts); n > 0 && acts[n-1].fill {
+				acts[n-1].keys = append(acts[n-1].keys, e.A)
+			}
 		case evEst:
 			if e.C == 1 {
 				incoming, estIn = e.A, e.B
@@ -164,6 +178,7 @@ func c09Judge(r *SeqRun) []Viol {
 			// nothing is removed for it and OnEvict gets the zero value. Not judged.
 			if e.B != 0 {
 				victims = append(victims, e.A)
+				acts = append(acts, c09Act{victim: e.A})
 			}
 		case evOnReject:
 			rejected = true
